@@ -1650,6 +1650,20 @@ class Block(_IRNode, IRWithUses, IRWithName):
         """Check if a name matches the default block naming pattern (bb followed by digits)."""
         return name.startswith("bb") and name[2:].isdigit() and name[2:] != ""
 
+    @classmethod
+    def extract_valid_name(  # pyright: ignore[reportIncompatibleMethodOverride]
+        cls, name: str | None
+    ) -> str | None:
+        """
+        Same as for values, except that names of the form `bb<number>` are not kept:
+        they are the names the printer gives to blocks without a name hint, and would
+        clash with them.
+        """
+        name = super().extract_valid_name(name)
+        if name is not None and cls.is_default_block_name(name):
+            return None
+        return name
+
     def __init__(
         self,
         ops: Iterable[Operation] = (),
